@@ -21,7 +21,11 @@ RULE = (
     "must serialise to strict JSON with spec-shaped error entries whose locations lie inside the "
     "submitted text, data must be absent after parse / validation failures, extensions must pass "
     "through, and for executed requests the error paths must match the nulls the reference executor "
-    "predicts. Non-trivial = distinct request that ends in an error of any stage or contains a null "
+    "predicts. "
+    "A fifth of the parseable requests are pre-parsed Documents (half of them without positions); "
+    "variable payloads contain format-code lookalikes; resolver errors may lack a message or be "
+    "one shared instance raised by many resolvers; custom scalars may serialise a value to null.  "
+    "Non-trivial = distinct request that ends in an error of any stage or contains a null "
     "/ failure placement."
 )
 ASSUMPTIONS = ["a location is accepted if it is inside the text under LF-only or LF|CR|CRLF line splitting",
